@@ -25,7 +25,7 @@ func init() {
 		ID:    "C19",
 		Title: "A failure anywhere surfaces as an error - never as a partial result",
 		Level: "fault_enumeration",
-		Rule: "fault form: a CTE first read at execution time; type errors through alias-qualified paths on one row. fault positions also inside BETWEEN and behind ONCE; follow-ups that show whole rows under an alias; phase 'typeerr-native': natively typed integers where a boolean / string / array is required. fault form EXISTS (SELECT * ...); type errors include non-boolean conditions of RAISE_WHEN / REPORT_WHEN. type errors include a reader error on one row only (`badrow.*`: ORDER BY path at top level / derived / CTE / union, a later join key column, a WHERE path); after a failed join the follow-up is a hash join. phase 'faults': each case = a random document x a query with the fault-injecting function VFAIL placed in one clause position (WHERE, select item, function argument, CASE branch/condition, HAVING, join ON conjunct, CTE body, CTE chain, derived table, select-list subquery, root-scoped subquery, IN-subquery, EXISTS-subquery, either UNION branch, DISTINCT, ORDER BY/LIMIT pipeline, multi-dimensional FROM, whole-table aggregate); " +
+		Rule: "a bare non-boolean column as a CASE condition; a panic in the ON of a PARALLEL join. fault form: a CTE first read at execution time; type errors through alias-qualified paths on one row. fault positions also inside BETWEEN and behind ONCE; follow-ups that show whole rows under an alias; phase 'typeerr-native': natively typed integers where a boolean / string / array is required. fault form EXISTS (SELECT * ...); type errors include non-boolean conditions of RAISE_WHEN / REPORT_WHEN. type errors include a reader error on one row only (`badrow.*`: ORDER BY path at top level / derived / CTE / union, a later join key column, a WHERE path); after a failed join the follow-up is a hash join. phase 'faults': each case = a random document x a query with the fault-injecting function VFAIL placed in one clause position (WHERE, select item, function argument, CASE branch/condition, HAVING, join ON conjunct, CTE body, CTE chain, derived table, select-list subquery, root-scoped subquery, IN-subquery, EXISTS-subquery, either UNION branch, DISTINCT, ORDER BY/LIMIT pipeline, multi-dimensional FROM, whole-table aggregate); " +
 			"a fault-free run counts the N invocations, then for EVERY k in 1..N the query is re-run on a fresh copy with VFAIL returning an error at its k-th invocation: New/Exec must return (no rows, a non-nil error) - never rows, never a shortened or NULL-patched result - and a follow-up query on that same input object must return what it returns on a pristine copy. " +
 			"phase 'raise': RAISE_WHEN firing on every row index j (and on no row). phase 'typeerr': a type error in every clause position. Exhaustive in k per query, sampled in queries. Non-trivial = a query with N >= 2 fault points (faults) or a firing RAISE / type error; distinct = distinct (document, SQL).",
 		Assumptions: []string{
